@@ -68,6 +68,9 @@ func c09Scenarios(cfg runCfg) []Scenario {
 	if cfg.shard < 4 {
 		out = append(out, Scenario{Family: "deadline", Seed: mix(cfg.seed, 9, 5, uint64(cfg.shard)), K: cfg.shard % 2})
 	}
+	if cfg.shard == 6 || cfg.shard == 9 {
+		out = append(out, Scenario{Family: "deadline", Seed: mix(cfg.seed, 9, 6, uint64(cfg.shard)), K: 2})
+	}
 	return out
 }
 
@@ -342,9 +345,30 @@ func c09Run(t *testing.T, sc Scenario, res *Result) {
 		// child: real *testing.T with a deadline (-test.timeout); every case sleeps and skips (K=0) or every other case is valid (K=1)
 		self, _ := os.Executable()
 		cmd := exec.Command(self, "-test.run", "^TestDeadlineChild$", "-test.timeout", "4s", "-test.v")
+		if sc.K == 2 {
+			// a test deadline that is nearer than the (default, 30 s) minimisation time limit, and a fast property that never fails
+			cmd = exec.Command(self, "-test.run", "^TestDeadlineChild$", "-test.timeout", "25s", "-test.v", "-rapid.checks", "50")
+		}
 		cmd.Env = append(os.Environ(), fmt.Sprintf("C09_DEADLINE_MODE=%d", sc.K))
+		began := time.Now()
 		out, _ := cmd.CombinedOutput()
 		text := string(out)
+		if sc.K == 2 {
+			res.inc("checks_run")
+			res.inc("family:deadline")
+			res.nontrivial("deadline/2")
+			switch {
+			case time.Since(began) > 12*time.Second || strings.Contains(text, "test timed out"):
+				res.inconclusive("deadline child (mode 2) came close to its own deadline")
+			case !strings.Contains(text, "DEADLINE-CHILD-RAN"):
+				res.inconclusive("deadline child did not run: " + clip(text, 200))
+			case !strings.Contains(text, "OK, passed 50 tests") || !strings.Contains(text, "DEADLINE-CHILD-CALLS 50"):
+				res.violate(sc, "c09/deadline-near", "with a test deadline 25 s away a never-failing property did not run on exactly -rapid.checks=50 test cases: "+clip(text, 400), nil)
+			default:
+				res.inc("deadline_near_full_run")
+			}
+			return
+		}
 		res.inc("checks_run")
 		res.inc("family:deadline")
 		res.nontrivial(fmt.Sprintf("deadline/%d", sc.K))
@@ -437,7 +461,9 @@ func c09Run(t *testing.T, sc Scenario, res *Result) {
 var c11Behaviours = []string{"pass", "skip", "errorf", "errorf+skip", "cleanup-errorf", "go-errorf", "cleanup-state", "fatalf", "panic", "skip+cleanup-errorf", "errorf+invalid-draw",
 	"cleanup-skip", "cleanup-more-errorf", "cleanup-more",
 	// failures without a message followed by a skip / raised by a cleanup; a non-fatal failure in a case that is skipped twice over
-	"error-empty+skip", "cleanup-errorf-empty", "errorf+skip+cleanup-skip", "cleanup-errorf+cleanup-skip", "cleanup-skip+cleanup-errorf"}
+	"error-empty+skip", "cleanup-errorf-empty", "errorf+skip+cleanup-skip", "cleanup-errorf+cleanup-skip", "cleanup-skip+cleanup-errorf",
+	// an optional hook that happens to be nil is registered between two real cleanups
+	"cleanup-nil"}
 
 func c11Scenarios(cfg runCfg) []Scenario {
 	var out []Scenario
@@ -573,6 +599,20 @@ func c11Body(forced map[uint64]string, randomRate int, salt uint64, leaks *int, 
 				})
 				*followUpsRegistered++
 			})
+		case "cleanup-nil":
+			for i := 0; i < 2; i++ {
+				x.t.Cleanup(func() {
+					if !me.current() {
+						*leaks++
+					}
+					me.ev("cleanup around a nil one ran")
+					*followUps++
+				})
+				*followUpsRegistered++
+				if i == 0 {
+					x.t.Cleanup(nil)
+				}
+			}
 		case "error-empty+skip":
 			x.fail(fkErrorEmpty, 0)
 			x.skip("after a failure without a message")
@@ -776,6 +816,14 @@ func TestDeadlineChild(t *testing.T) {
 	}
 	fmt.Println("DEADLINE-CHILD-RAN")
 	calls := 0
+	if mode == "2" {
+		rapid.Check(t, func(rt *rapid.T) {
+			calls++
+			rapid.Uint8().Draw(rt, "v")
+		})
+		fmt.Println("DEADLINE-CHILD-CALLS", calls)
+		return
+	}
 	rapid.Check(t, func(rt *rapid.T) {
 		calls++
 		rapid.Uint8().Draw(rt, "v")
